@@ -662,6 +662,11 @@ func (zp *ZoneParser) Next() (RR, bool) {
 					return zp.setParseError(err.err, err.lex)
 				}
 
+				if zp.c.Err() != nil {
+					// The input failed in the middle of this record.
+					return nil, false
+				}
+
 				return rr, true
 			} else if l.value == zNewline {
 				return zp.setParseError("unexpected newline", l)
@@ -691,6 +696,11 @@ func (zp *ZoneParser) Next() (RR, bool) {
 				if err != nil {
 					return zp.setParseError(err.Error(), l)
 				}
+			}
+
+			if zp.c.Err() != nil {
+				// The input failed in the middle of this record.
+				return nil, false
 			}
 
 			return rr, true
